@@ -1,6 +1,7 @@
 package rules
 
 import (
+	"strings"
 	"go/token"
 	"go/types"
 
@@ -851,6 +852,87 @@ func c03(c *core.Ctx) {
 		}
 		c.CheckTrivial("DPoVP.StableBlock←StableManager.StableBlock", "value-flow", okS, dsb.Pos(), "DPoVP.StableBlock returns the stable manager's block")
 
+		// the node remembers what it signed: once confirmBlock has produced a signature, lastSig names that block before control can leave —
+		// inside confirmBlock, or on every path of every caller from the successful call to a return. needConfirm refuses a sibling of the
+		// block lastSig names; a signature that is not recorded lets the node confirm two conflicting blocks.
+		cb := c.Fn(cons + ".Confirmer.confirmBlock")
+		setLast := c.Method(cons+".Confirmer", "SetLastSig")
+		okSig := successNeeds(cb, setLast, 2)
+		whySig := ""
+		if !okSig {
+			okSig = true
+			_, sites := callersOf(c, c.Method(cons+".Confirmer", "confirmBlock"))
+			if len(sites) == 0 {
+				okSig = false
+			}
+			for _, cs := range sites {
+				g := cs.Caller
+				avoid := map[*ssa.BasicBlock]bool{}
+				for _, p := range passers(g, setLast, 2) {
+					avoid[p.Block()] = true
+				}
+				ev := core.ErrResult(cs.Instr)
+				covered := false
+				for _, t := range core.TestsOf(ev, core.ErrNonNil) {
+					if !core.Dominates(cs.Instr, t.If) || t.OK == t.Fail {
+						continue
+					}
+					covered = true
+					r := core.ReachCutAvoid(t.OK, nil, avoid)
+					for _, ret := range core.Returns(g) {
+						if ret.Block() != g.Recover && r[ret.Block()] && !avoid[ret.Block()] {
+							okSig = false
+							whySig = shortFn(g) + " can return after a successful confirmBlock without SetLastSig"
+						}
+					}
+				}
+				if !covered {
+					okSig = false
+					whySig = shortFn(g) + " does not test confirmBlock's error"
+				}
+			}
+		}
+		c.Check("confirmBlock:signature⇒SetLastSig", "must-call", okSig, cb.Pos(), "every signature the node makes for a confirm is recorded in lastSig before control leaves: %s", orOK(whySig))
+		// isCurrentForkCut asks the store whether the head is still among the unconfirmed blocks and takes ErrBlockNotExist for "pruned":
+		// GetUnConfirmByHeight must therefore answer from UnConfirmBlocks only — a block it hands out comes out of that map (through Parent
+		// links), never from the confirmed chain on disk
+		gu := c.Fn("store.ChainDatabase.GetUnConfirmByHeight")
+		unconfF := c.FieldVar("store.ChainDatabase", "UnConfirmBlocks")
+		okU, nSucc := true, 0
+		for _, r := range core.Returns(gu) {
+			if r.Block() == gu.Recover || core.ClassifyReturn(r, nil, nil) == core.RetFailure {
+				continue
+			}
+			nSucc++
+			sl := core.Slice(core.RetVal(r, 0))
+			fromMap := false
+			for v := range sl {
+				if lk, ok := v.(*ssa.Lookup); ok && core.SliceHasField(core.SliceShallow(lk.X), unconfF) {
+					fromMap = true
+				}
+			}
+			hasLoader := false
+			for v := range sl {
+				if ci, ok := v.(ssa.CallInstruction); ok {
+					if sf := core.StaticFn(ci); sf != nil && core.RelPkg(sf) == "store" && strings.HasPrefix(sf.Name(), "UtilsGet") {
+						hasLoader = true
+					}
+				}
+			}
+			if !fromMap || hasLoader {
+				okU = false
+			}
+		}
+		c.Check("GetUnConfirmByHeight:answers-from-UnConfirmBlocks-only", "value-flow", okU && nSucc > 0, gu.Pos(), "every block GetUnConfirmByHeight hands out comes from the UnConfirmBlocks map; for a confirmed height it fails (isCurrentForkCut reads that failure as: the head's fork was pruned)")
+		icf := c.Fn(cons + ".ForkManager.isCurrentForkCut")
+		okC := false
+		for _, r := range core.Returns(icf) {
+			sl := core.Slice(core.RetVal(r, 0))
+			if core.SliceHasCall(sl, c.Method(cons+".BlockLoader", "GetUnConfirmByHeight")) && core.SliceHasGlobal(sl, c.Global("store.ErrBlockNotExist")) && core.SliceHasCall(sl, c.Method(cons+".ForkManager", "GetHeadBlock")) {
+				okC = true
+			}
+		}
+		c.Check("isCurrentForkCut:GetUnConfirmByHeight(head)=ErrBlockNotExist", "value-flow", okC, icf.Pos(), "the fork counts as cut exactly when the store no longer finds the head among the unconfirmed blocks")
 		cut := c.Method(cons+".ForkManager", "isCurrentForkCut")
 		choose := c.Method(cons+".ForkManager", "ChooseNewFork")
 		setHead := c.Method(cons+".ForkManager", "SetHeadBlock")
